@@ -7,7 +7,7 @@ READS = [["--json", "list"], ["--json", "list", "--all"], ["--json", "list", "--
 PANIC = re.compile(r"(panic:|fatal error:|goroutine \d+ \[|runtime error)")
 
 
-def storage_tie(ctx, seed, n):
+def storage_tie(ctx, seed, n, prop="C12"):
     p = subprocess.run([ctx.ev, "fn-storage", str(seed), str(n)], stdout=subprocess.PIPE, text=True)
     cases = [json.loads(l) for l in p.stdout.splitlines()]
     outs = common.model_batch([c["req"] for c in cases])
@@ -24,7 +24,7 @@ def storage_tie(ctx, seed, n):
                 ctx.tie_broken("T2-fn readEvents/appendEvents (byte level)", {"first_difference": fndiff.first_difference(g, m), "append_err": go.get("append_err"),
                                                                                  "file_tail": bytes.fromhex(c["req"]["file"])[-160:].decode("utf-8", "replace")})
         if go["read"].get("err") == "bad_line" and not go["read"].get("names_file"):
-            ctx.violation("C12 parse error does not name the file", "readEvents' message for an invalid line does not start with the path", {"file_tail": bytes.fromhex(c["req"]["file"])[-160:].decode("utf-8", "replace")})
+            ctx.violation("%s parse error does not name the file" % prop, "readEvents' message for an invalid line does not start with the path", {"file_tail": bytes.fromhex(c["req"]["file"])[-160:].decode("utf-8", "replace")})
     ctx.tie("T2-fn readEvents/appendEvents (byte level)", cases=len(cases), classes=classes, disagreements=nd)
     ctx.count(len(cases))
 
@@ -169,6 +169,43 @@ def history_grows(ctx, r):
         st.close()
 
 
+def big_last_line(ctx, r, prop="C12"):
+    """a complete event line longer than the 64 KiB blocks the tail repair reads, whose final newline is missing (an editor, a merge, or
+    a write torn at its very last byte): the next append has to keep it"""
+    st = cmdrun.Store(ctx.ergo, ctx.go)
+    trace = []
+    try:
+        st.exec(["--json", "new", "task"], b'{"title":"first"}')
+        n = r.pick([66000, 70000, 131100, 140000, 200000])
+        body = ("0123456789abcdef" * (n // 16 + 1))[:n]
+        rr = st.exec(["--json", "new", "task"], json.dumps({"title": "big", "body": body}).encode())
+        trace.append({"argv": ["--json", "new", "task"], "stdin": "{\"title\":\"big\",\"body\":<%d bytes of 0123456789abcdef…>}" % n, "exit": rr["exit"]})
+        if rr["exit"] != 0:
+            return
+        big_id = json.loads(rr["stdout"])["id"]
+        data = st.log_bytes()
+        open(st.log_path(), "wb").write(data[:-1])
+        trace.append({"edit": "final newline of the log removed (last line stays a complete event, %d bytes)" % len(data.rstrip(b"\n").split(b"\n")[-1])})
+        before = [json.loads(l) for l in data.split(b"\n") if l.strip()]
+        argv, stdin = r.pick([(["--json", "new", "task"], b'{"title":"next"}'), (["--json", "set", big_id], b'{"title":"renamed"}'), (["--json", "--agent", "a", "claim"], None)])
+        rr = st.exec(argv, stdin)
+        trace.append({"argv": argv, "stdin": None if stdin is None else stdin.decode(), "exit": rr["exit"]})
+        ctx.count(1, key=("big-last-line", n > 131072, argv[1] if argv[1] != "--agent" else "claim"))
+        raw = st.log_bytes()
+        try:
+            after = [json.loads(l) for l in raw.split(b"\n") if l.strip()]
+        except Exception as e:
+            ctx.violation("%s " % prop + "log unreadable after appending to a log whose last line lacked its newline", str(e)[:200], {"trace": trace}); return
+        if after[:len(before)] != before:
+            ctx.violation("%s " % prop + "earlier events changed by %s (big last line without newline)" % argv[1], "log was %d bytes / %d events, now %d bytes / %d events; the %d-byte last event is %s" %
+                          (len(data), len(before), len(raw), len(after), n, "gone" if len(after) <= len(before) else "altered"), {"trace": trace}); return
+        sh = st.exec(["--json", "show", big_id])
+        if sh["exit"] != 0:
+            ctx.violation("%s " % prop + "item shown before a mutation is gone after it", "show %s: %s" % (big_id, sh["stderr"].strip()[:120]), {"trace": trace}); return
+    finally:
+        st.close()
+
+
 def read_programs(ctx):
     st = cmdrun.Store(ctx.ergo, ctx.go)
     try:
@@ -202,6 +239,8 @@ def run(ctx):
         total_and_deterministic(ctx, r.fork())
     for i in range(6 if ctx.quick else 80):
         history_grows(ctx, r.fork())
+    for i in range(4 if ctx.quick else 40):
+        big_last_line(ctx, r.fork())
     ctx.cov["rule"] = ("byte-level files (valid, torn, CRLF, junk, bit flips) → Go readEvents/appendEvents vs the Lean storage model incl. line numbers; CLI-built logs mutated 14 ways "
                        "(truncation at lines/bytes, bit flip, conflict markers, shuffles, duplicates, unknown types, wrong field types, scalar lines, CRLF, blank lines, missing final newline, 11 MB line) "
                        "× 15 read commands × 3–6 repetitions: exit 0/1 within 8 s, no panic text, message names file:line, byte-identical output, store files unchanged; hand-merged equal created_at; "
